@@ -16,6 +16,7 @@ import (
 	"reflect"
 	"runtime"
 	"sort"
+	"strconv"
 	"strings"
 	"sync"
 	"sync/atomic"
@@ -40,9 +41,11 @@ const (
 	opCancel
 	opIdle
 	opYield
+	opStamp
+	opCtxErr
 )
 
-var opNames = [...]string{"start", "lock", "rlock", "wlock", "wlock-announce", "wgwait", "send", "recv", "done", "select", "close", "cancel", "idle", "yield"}
+var opNames = [...]string{"start", "lock", "rlock", "wlock", "wlock-announce", "wgwait", "send", "recv", "done", "select", "close", "cancel", "idle", "yield", "stamp", "ctxerr"}
 
 const (
 	dirRecv int8 = iota
@@ -85,12 +88,15 @@ type thread struct {
 	exited  chan struct{}
 	site    string
 	name    string
+	key     string // stable name: parent's key + index among the parent's children
+	nspawn  int
 }
 
 // Decision records one scheduling decision: N alternatives in canonical order, of
 // which the first NFree do not cost a preemption; Chosen was taken.
 type Decision struct {
 	N, NFree, Chosen int
+	Awake            uint64 // sleep-set mode: bit k set = alternative k is not asleep (N <= 64)
 }
 
 type vtimer struct {
@@ -143,6 +149,14 @@ type sched struct {
 	describe   bool
 	writerPref bool
 	vnow       time.Time
+
+	// sleep sets (unbounded mode only)
+	sleepMode bool
+	sleep     []sleepEntry
+	pendSleep []sleepEntry
+	chosenSig sig
+	havePend  bool
+	ctxNodes  map[unsafe.Pointer]*ctxNode
 }
 
 var (
@@ -228,10 +242,16 @@ func (t *thread) park(o op) int {
 	return r
 }
 
-func (s *sched) spawn(fn func(), name string) *thread {
+func (s *sched) spawn(parent *thread, fn func(), name string) *thread {
 	// s.mu held
 	t := &thread{id: len(s.threads), epoch: s.epoch, wake: make(chan int, 4), exited: make(chan struct{}), parked: true, name: name}
 	t.pend = op{kind: opStart}
+	if parent == nil {
+		t.key = "0"
+	} else {
+		t.key = parent.key + "." + strconv.Itoa(parent.nspawn)
+		parent.nspawn++
+	}
 	if s.describe {
 		t.site = callerSite(3)
 	}
@@ -423,7 +443,7 @@ func (s *sched) enabled() []trans {
 		}
 		o := &t.pend
 		switch o.kind {
-		case opStart, opClose, opCancel, opYield, opWLockAnnounce:
+		case opStart, opClose, opCancel, opYield, opWLockAnnounce, opStamp, opCtxErr:
 			out = append(out, trans{t.id, -1, -1, -1})
 		case opLock:
 			if !o.mu.held {
@@ -512,6 +532,156 @@ func (s *sched) involvesLast(tr trans) bool {
 	return false
 }
 
+// ---- independence (sleep sets)
+
+type objRef struct {
+	p unsafe.Pointer
+	w bool
+}
+
+// sig is what a transition (its granted operation) touches; global = conflicts with
+// everything (cancel: context state is read by un-instrumented ctx.Err() calls).
+type sig struct {
+	global bool
+	objs   []objRef
+}
+
+type sleepEntry struct {
+	ka, kb string
+	ca, cb int
+	sg     sig
+}
+
+var clockObj byte
+
+// ctxNode: a context created through verifrt.WithCancel/WithTimeout/WithDeadline,
+// found again (also through value-context wrappers) by its Done channel.
+type ctxNode struct {
+	parent *ctxNode
+}
+
+func donePtr(ctx context.Context) unsafe.Pointer {
+	if ctx == nil {
+		return nil
+	}
+	d := ctx.Done()
+	if d == nil {
+		return nil
+	}
+	return reflect.ValueOf(d).UnsafePointer()
+}
+
+// ctxObjs: what an operation on ctx touches. Reading (Done, Err) depends on the
+// context and all its ancestors; cancel writes the context itself. A context that
+// was not created through verifrt is conservatively global.
+func (s *sched) ctxObjs(ctx context.Context, write bool, g *sig) {
+	p := donePtr(ctx)
+	if p == nil {
+		return
+	}
+	n := s.ctxNodes[p]
+	if n == nil {
+		g.global = true
+		return
+	}
+	g.objs = append(g.objs, objRef{unsafe.Pointer(n), write})
+	if !write {
+		for a := n.parent; a != nil; a = a.parent {
+			g.objs = append(g.objs, objRef{unsafe.Pointer(a), false})
+		}
+	}
+}
+
+func (s *sched) registerCtx(ctx, parent context.Context) {
+	n := &ctxNode{}
+	if pp := donePtr(parent); pp != nil {
+		n.parent = s.ctxNodes[pp]
+	}
+	s.ctxNodes[donePtr(ctx)] = n
+}
+
+func (s *sched) caseObj(c *Case, g *sig) {
+	switch c.dir {
+	case dirDone:
+		s.ctxObjs(c.ctx, false, g)
+	default:
+		if c.ch != nil {
+			g.objs = append(g.objs, objRef{c.ch, true})
+		}
+	}
+}
+
+func (s *sched) sigOf(tr trans) sig {
+	var g sig
+	add := func(t *thread, ci int) {
+		o := &t.pend
+		switch o.kind {
+		case opLock:
+			g.objs = append(g.objs, objRef{unsafe.Pointer(o.mu), true})
+		case opRLock:
+			g.objs = append(g.objs, objRef{unsafe.Pointer(o.rw), false})
+		case opWLock, opWLockAnnounce:
+			g.objs = append(g.objs, objRef{unsafe.Pointer(o.rw), true})
+		case opWait:
+			g.objs = append(g.objs, objRef{unsafe.Pointer(o.wg), false})
+		case opSend, opRecv, opClose:
+			s.caseObj(&o.c, &g)
+		case opDone, opCtxErr:
+			s.ctxObjs(o.c.ctx, false, &g)
+		case opCancel:
+			s.ctxObjs(o.c.ctx, true, &g)
+		case opStamp:
+			g.objs = append(g.objs, objRef{unsafe.Pointer(&clockObj), true})
+		case opSelect:
+			if ci >= 0 {
+				s.caseObj(&o.cases[ci], &g)
+			} else {
+				for k := range o.cases {
+					s.caseObj(&o.cases[k], &g)
+				}
+			}
+		}
+	}
+	add(s.threads[tr.a], tr.ca)
+	if tr.b >= 0 {
+		add(s.threads[tr.b], tr.cb)
+	}
+	return g
+}
+
+func dependent(e *sleepEntry, ka, kb string, g *sig) bool {
+	if e.ka == ka || (kb != "" && (e.ka == kb || e.kb == kb)) || (e.kb != "" && e.kb == ka) {
+		return true
+	}
+	if e.sg.global || g.global {
+		return true
+	}
+	for _, x := range e.sg.objs {
+		for _, y := range g.objs {
+			if x.p == y.p && (x.w || y.w) {
+				return true
+			}
+		}
+	}
+	return false
+}
+
+// touch records an object modified by a non-point operation of the running step
+// (WaitGroup.Add/Done): it can disable a sleeping transition, so it counts as part
+// of the executed transition's footprint.
+func (s *sched) touch(p unsafe.Pointer) {
+	if s.sleepMode && s.havePend {
+		s.chosenSig.objs = append(s.chosenSig.objs, objRef{p, true})
+	}
+}
+
+func (s *sched) keyOf(id int) string {
+	if id < 0 {
+		return ""
+	}
+	return s.threads[id].key
+}
+
 // decide is called with s.mu held when no thread is running.
 func (s *sched) decide() {
 	if s.finished {
@@ -523,6 +693,29 @@ func (s *sched) decide() {
 		s.running++
 		f.wake <- 0
 		return
+	}
+	// A thread's first step (from its start to its first scheduling point) touches
+	// nothing another thread can observe (data-race freedom: everything it reads was
+	// published before the go statement), so it is independent of every other
+	// transition: run it eagerly, in creation order, without making it a choice.
+	for _, t := range s.threads {
+		if t.parked && !t.done && t.pend.kind == opStart {
+			t.parked = false
+			s.running++
+			t.wake <- 0
+			return
+		}
+	}
+	if s.sleepMode && s.havePend {
+		// the previous transition's step is complete: its footprint is final
+		s.havePend = false
+		s.sleep = s.sleep[:0]
+		for i := range s.pendSleep {
+			e := &s.pendSleep[i]
+			if !dependent(e, s.keyOf(s.lastRan[0]), s.keyOf(s.lastRan[1]), &s.chosenSig) {
+				s.sleep = append(s.sleep, *e)
+			}
+		}
 	}
 	var trs []trans
 	for {
@@ -543,9 +736,18 @@ func (s *sched) decide() {
 			idle.parked = false
 			s.running++
 			idle.wake <- 0
+			if s.sleepMode {
+				// waking an idle waiter is not a choice and conflicts with nothing that is enabled
+				s.pendSleep = append(s.pendSleep[:0], s.sleep...)
+				s.chosenSig = sig{}
+				s.havePend = true
+			}
 			return
 		}
 		if s.fireTimer() {
+			if s.sleepMode {
+				s.sleep = s.sleep[:0] // a timer is global
+			}
 			continue
 		}
 		var bl []string
@@ -570,21 +772,64 @@ func (s *sched) decide() {
 	if nfree == 0 {
 		nfree = len(trs)
 	}
-	i := len(s.res.Trace)
-	c := 0
-	if i < len(s.prefix) {
-		c = s.prefix[i]
-		if c < 0 || c >= len(trs) {
-			toolFail(fmt.Sprintf("replay divergence at decision %d: choice %d of %d enabled", i, c, len(trs)))
+	awake := ^uint64(0)
+	first := 0
+	if s.sleepMode {
+		if len(trs) > 64 {
+			toolFail("more than 64 enabled transitions in sleep-set mode")
+		}
+		awake = 0
+		first = -1
+		for k, tr := range trs {
+			asleep := false
+			ka, kb := s.keyOf(tr.a), s.keyOf(tr.b)
+			for j := range s.sleep {
+				e := &s.sleep[j]
+				if e.ka == ka && e.kb == kb && e.ca == tr.ca && e.cb == tr.cb {
+					asleep = true
+					break
+				}
+			}
+			if !asleep {
+				awake |= 1 << uint(k)
+				if first < 0 {
+					first = k
+				}
+			}
+		}
+		if first < 0 {
+			s.finish("sleep-blocked", "")
+			return
 		}
 	}
-	s.res.Trace = append(s.res.Trace, Decision{N: len(trs), NFree: nfree, Chosen: c})
+	i := len(s.res.Trace)
+	c := first
+	if i < len(s.prefix) {
+		c = s.prefix[i]
+		if c < 0 || c >= len(trs) || awake&(1<<uint(c)) == 0 {
+			toolFail(fmt.Sprintf("replay divergence at decision %d: choice %d of %d enabled (awake mask %b)", i, c, len(trs), awake))
+		}
+	}
+	s.res.Trace = append(s.res.Trace, Decision{N: len(trs), NFree: nfree, Chosen: c, Awake: awake})
 	if s.describe {
 		s.res.Desc = append(s.res.Desc, s.descTrans(trs[c]))
 	}
 	if len(s.res.Trace) > maxDecisions {
 		s.finish("deadlock", fmt.Sprintf("livelock: more than %d decisions in one execution", maxDecisions))
 		return
+	}
+	if s.sleepMode {
+		// earlier awake siblings have been (or will be, by another shard) explored from
+		// this state: they sleep in the chosen branch as long as they stay independent
+		s.pendSleep = append(s.pendSleep[:0], s.sleep...)
+		for k := 0; k < c; k++ {
+			if awake&(1<<uint(k)) != 0 {
+				tr := trs[k]
+				s.pendSleep = append(s.pendSleep, sleepEntry{s.keyOf(tr.a), s.keyOf(tr.b), tr.ca, tr.cb, s.sigOf(tr)})
+			}
+		}
+		s.chosenSig = s.sigOf(trs[c])
+		s.havePend = true
 	}
 	s.apply(trs[c])
 }
@@ -696,7 +941,7 @@ func Go(fn func()) {
 		s.mu.Unlock()
 		runtime.Goexit()
 	}
-	s.spawn(fn, "")
+	s.spawn(t, fn, "")
 	s.mu.Unlock()
 }
 
@@ -712,7 +957,7 @@ func GoNamed(name string, fn func()) {
 		s.mu.Unlock()
 		runtime.Goexit()
 	}
-	s.spawn(fn, name)
+	s.spawn(t, fn, name)
 	s.mu.Unlock()
 }
 
@@ -893,8 +1138,12 @@ func Logf(format string, a ...any) {
 }
 
 // Stamp returns a strictly increasing logical time (one thread runs at a time, so
-// stamp order is real-time order).
+// stamp order is real-time order). It is itself a scheduling point, and two stamps
+// never commute, so every relative order of two threads' stamps is explored.
 func Stamp() int64 {
+	if t := cur(); t != nil {
+		t.park(op{kind: opStamp})
+	}
 	return atomic.AddInt64(&s.clock, 1)
 }
 
@@ -998,6 +1247,7 @@ func WGAdd(st *WGState, n int) {
 			*st = WGState{epoch: t.epoch}
 		}
 		st.n += n
+		s.touch(unsafe.Pointer(st))
 		s.mu.Unlock()
 	}
 }
@@ -1028,10 +1278,19 @@ func (c *vtimerCtx) Deadline() (time.Time, bool) { return c.tm.deadline, true }
 func wrapCancel(ctx context.Context, cancel context.CancelFunc) context.CancelFunc {
 	return func() {
 		if t := cur(); t != nil && ctx.Err() == nil {
-			t.park(op{kind: opCancel})
+			t.park(op{kind: opCancel, c: Case{ctx: ctx}})
 		}
 		cancel()
 	}
+}
+
+// CtxErr is `ctx.Err()`: a scheduling point, because the answer depends on whether a
+// cancel of ctx (or of an ancestor) has already happened.
+func CtxErr(ctx context.Context) error {
+	if t := cur(); t != nil && donePtr(ctx) != nil {
+		t.park(op{kind: opCtxErr, c: Case{dir: dirDone, ctx: ctx}})
+	}
+	return ctx.Err()
 }
 
 func WithCancel(parent context.Context) (context.Context, context.CancelFunc) {
@@ -1039,6 +1298,9 @@ func WithCancel(parent context.Context) (context.Context, context.CancelFunc) {
 	if cur() == nil {
 		return ctx, cancel
 	}
+	s.mu.Lock()
+	s.registerCtx(ctx, parent)
+	s.mu.Unlock()
 	return ctx, wrapCancel(ctx, cancel)
 }
 
@@ -1059,11 +1321,12 @@ func WithDeadline(parent context.Context, d time.Time) (context.Context, context
 	tm := &vtimer{deadline: d, cancel: cancel, seq: s.timerSeq}
 	s.timerSeq++
 	s.timers = append(s.timers, tm)
+	s.registerCtx(inner, parent)
 	s.mu.Unlock()
 	ctx := &vtimerCtx{Context: inner, tm: tm}
 	return ctx, func() {
 		if t := cur(); t != nil && ctx.Err() == nil {
-			t.park(op{kind: opCancel})
+			t.park(op{kind: opCancel, c: Case{ctx: ctx}})
 		}
 		s.mu.Lock()
 		tm.stopped = true
@@ -1087,6 +1350,10 @@ var epochCounter uint64
 // afterwards) and returns when the execution is over and every goroutine it
 // started has gone.
 func RunOnce(prefix []int, describe bool, body func()) *ExecResult {
+	return runOnce(prefix, describe, false, body)
+}
+
+func runOnce(prefix []int, describe, sleepMode bool, body func()) *ExecResult {
 	s.mu.Lock()
 	epochCounter++
 	s.epoch = epochCounter
@@ -1104,8 +1371,13 @@ func RunOnce(prefix []int, describe bool, body func()) *ExecResult {
 	s.clock = 0
 	s.describe = describe
 	s.vnow = time.Unix(1_000_000, 0)
+	s.sleepMode = sleepMode
+	s.ctxNodes = map[unsafe.Pointer]*ctxNode{}
+	s.sleep = s.sleep[:0]
+	s.pendSleep = s.pendSleep[:0]
+	s.havePend = false
 	active.Store(true)
-	root := s.spawn(body, "root")
+	root := s.spawn(nil, body, "root")
 	root.parked = false
 	s.running = 1
 	root.wake <- 0
